@@ -266,6 +266,7 @@ def run_one(ctx: Any, seed: int, tier: str, replay: Optional[dict] = None) -> di
             "bait": 0.2,
             "max_files": rng.fork("nfiles").choice([8, 8, 8, 12]),
             "jinja_loader": 0.25,
+            "nested_templater": 0.4,
         })
         sc = gen_scenario(rng.fork("scenario"), world)
         pool = ctx.hashseeds(6)
